@@ -61,7 +61,7 @@ func (sc *scenario) node(i int) *node.Node { return sc.w.Nodes[i] }
 var favTx = map[string][]string{
 	"value":  {"valid", "yield-swap", "fee-exact", "fee-low", "fee-plus1", "overflow", "huge-output", "huge-output", "many-outputs", "consolidate", "zero-output"},
 	"spend":  {"valid", "double-spend", "same-input-twice", "spend-pooled", "spend-last-block", "duplicate", "bad-index", "unknown-ref"},
-	"owner":  {"valid", "valid", "bad-sig", "zero-sig", "wrong-owner", "foreign-sig", "replay-sig", "replay-sig", "unknown-ref"},
+	"owner":  {"valid", "valid", "many-outputs", "bad-sig", "zero-sig", "wrong-owner", "wrong-owner-2nd", "wrong-owner-2nd", "foreign-sig", "replay-sig", "replay-sig", "unknown-ref"},
 	"shape":  {"valid", "ts-old", "ts-last", "ts-next", "ts-future"},
 	"income": {"valid", "yield-new", "yield-new", "yield-twice", "yield-registered", "yield-swap", "yield-swap"},
 	"alias":  {"valid", "yield-new", "yield-new", "yield-registered"},
@@ -73,7 +73,7 @@ var favBreak = map[string][]string{
 	"spend":  {"double-spend", "unknown-input", "ok-fee", "replay-tx", "replay-tx"},
 	"owner":  {"bad-sig-tx", "steal", "ok-fee"},
 	"shape":  {"bad-ts", "no-reward", "two-rewards", "tx-future", "tx-old", "unlinked"},
-	"income": {"yield-unregistered", "yield-listed", "removed-listed"},
+	"income": {"yield-unregistered", "yield-listed", "yield-listed-then-unregistered", "yield-listed-then-unregistered", "removed-listed"},
 	"fork":   {"ok-fee", "yield-listed", "removed-listed", "ok-fee"},
 }
 
@@ -124,7 +124,7 @@ func (sc *scenario) value(u *ledger.Utxo, at int64) uint64 {
 }
 
 var txKinds = []string{"valid", "valid", "valid", "valid", "fee-exact", "fee-low", "fee-plus1", "double-spend", "duplicate", "bad-sig",
-	"zero-sig", "wrong-owner", "foreign-sig", "replay-sig", "unknown-ref", "bad-index", "ts-old", "ts-last", "ts-next", "ts-future", "overflow", "huge-output",
+	"zero-sig", "wrong-owner", "wrong-owner-2nd", "foreign-sig", "replay-sig", "unknown-ref", "bad-index", "ts-old", "ts-last", "ts-next", "ts-future", "overflow", "huge-output",
 	"yield-new", "yield-twice", "yield-registered", "yield-swap", "same-input-twice", "spend-pooled", "spend-last-block", "zero-output", "many-outputs", "consolidate"}
 
 func (sc *scenario) makeTx(n *node.Node, kind string) (*ledger.Transaction, string) {
@@ -294,6 +294,41 @@ func (sc *scenario) makeTx(n *node.Node, kind string) (*ledger.Transaction, stri
 			return nil, ""
 		}
 		return tx, kind
+	case "wrong-owner-2nd": // two outputs of ONE owner; the first input is the owner's, the second names another wallet's key
+		// with that wallet's valid signature over the reference
+		byOwner := map[*node.Wallet][]utxoRef{}
+		for _, u := range usable {
+			byOwner[u.owner] = append(byOwner[u.owner], u)
+		}
+		var victim []utxoRef
+		for _, wl := range sc.w.Wallets {
+			if len(byOwner[wl]) >= 2 {
+				victim = byOwner[wl]
+				break
+			}
+		}
+		if victim == nil {
+			return nil, ""
+		}
+		a, b := victim[0], victim[1]
+		thief := other()
+		if thief == a.owner {
+			return nil, ""
+		}
+		total := sc.value(a.u, next) + sc.value(b.u, next)
+		if total <= S.MinFee+1 {
+			return nil, ""
+		}
+		raw := &node.RawTx{Timestamp: ts, Outputs: []node.RawOutput{{Address: thief.Address, Value: total - S.MinFee - 1}}}
+		raw.Inputs = []node.RawInput{
+			{OutputIndex: a.u.OutputIndex(), TransactionId: a.u.TransactionId(), PublicKey: a.owner.PubHex, Signature: a.owner.Sign(a.u.OutputIndex(), a.u.TransactionId())},
+			{OutputIndex: b.u.OutputIndex(), TransactionId: b.u.TransactionId(), PublicKey: thief.PubHex, Signature: thief.Sign(b.u.OutputIndex(), b.u.TransactionId())},
+		}
+		tx, err := raw.Seal()
+		if err != nil {
+			return nil, ""
+		}
+		return tx, kind
 	case "unknown-ref":
 		w := other()
 		id := node.Sha256Hex([]byte(fmt.Sprint(r.Int63())))
@@ -428,7 +463,7 @@ func (sc *scenario) findUtxoAnywhere(n *node.Node, id string, idx uint16) utxoRe
 // ---------------------------------------------------------------- adversarial chains
 
 var breakKinds = []string{"bad-ts", "no-reward", "two-rewards", "reward-plus1", "bad-sig-tx", "unknown-input", "double-spend", "tx-future",
-	"tx-old", "low-fee", "ok-fee", "yield-unregistered", "yield-listed", "unlinked", "removed-listed", "steal", "huge-output", "replay-tx"}
+	"tx-old", "low-fee", "ok-fee", "yield-unregistered", "yield-listed", "unlinked", "removed-listed", "steal", "huge-output", "replay-tx", "yield-listed-then-unregistered"}
 
 // mutate returns base[0..h) + a block at height h broken in exactly one way + `fill` reward-only blocks.
 func (sc *scenario) mutate(n *node.Node, base []*ledger.Block, h int, kind string, fill int) []*ledger.Block {
@@ -563,6 +598,17 @@ func (sc *scenario) mutate(n *node.Node, base []*ledger.Block, h int, kind strin
 		ok := addTx(func(raw *node.RawTx, u spendRef) {
 			raw.Outputs[0].IsYielding = true
 			raw.Outputs[0].Address = "0xListed" + fmt.Sprint(r.Intn(3))
+		})
+		if !ok {
+			return nil
+		}
+		blk.Added = append(blk.Added, blk.Txs()[0].Outputs[0].Address)
+	case "yield-listed-then-unregistered": // one transaction, two yielding outputs: the first to an address the block lists,
+		// the second to an address that is neither listed nor registered
+		ok := addTx(func(raw *node.RawTx, u spendRef) {
+			v := raw.Outputs[0].Value
+			raw.Outputs = []node.RawOutput{{Address: "0xListed" + fmt.Sprint(r.Intn(3)), IsYielding: true, Value: v / 2},
+				{Address: "0xUnregistered" + fmt.Sprint(r.Intn(3)), IsYielding: true, Value: v - v/2}}
 		})
 		if !ok {
 			return nil
@@ -1300,6 +1346,76 @@ func (sc *scenario) runLongPrefix() {
 	}
 }
 
+// profile "fork" (C06), competing tips: three nodes share a chain of every small length, each produces its own tip at
+// the same timestamp, then every node is offered the two other tips (both valid) in a random order, possibly with a
+// neighbour that is rejected after its first block — the incremental path with several candidates built on ONE
+// shared copy of the host's prefix.
+func (sc *scenario) runTips() {
+	r := sc.rng
+	w := sc.w
+	S := w.S
+	a, b, c := w.Nodes[0], w.Nodes[1], w.Nodes[2]
+	L := 3 + r.Intn(11)
+	sc.clock = T0
+	w.Tick(a, sc.clock)
+	for len(a.AllBlocks()) < L && len(w.Failures) == 0 {
+		if r.Intn(4) == 0 {
+			if tx, _ := sc.makeTx(a, "valid"); tx != nil {
+				w.Submit(a, tx)
+			}
+		}
+		sc.clock += S.Interval
+		w.Tick(a, sc.clock)
+	}
+	for _, f := range []*node.Node{b, c} {
+		w.Tick(f, T0)
+		if sc.catchUp(f, a, sc.clock, 3+ceilDiv(L, int(S.BlocksLimit)-1)) > 3+ceilDiv(L, int(S.BlocksLimit)-1) {
+			return
+		}
+	}
+	sc.mark("adopted")
+	nodes := []*node.Node{a, b, c}
+	for round := 0; round < 3 && len(w.Failures) == 0; round++ {
+		sc.clock += S.Interval
+		for _, n := range nodes {
+			w.Tick(n, sc.clock) // competing tips on the shared chain
+		}
+		for _, host := range nodes {
+			var nb []trace.Neighbour
+			for i, o := range nodes {
+				if o != host {
+					h := trace.Honest(o)
+					h.Target = fmt.Sprintf("tip%d", i)
+					nb = append(nb, h)
+				}
+			}
+			if r.Intn(2) == 0 {
+				oc := pick(r, nodes).AllBlocks()
+				if c1 := sc.mutate(host, oc, len(oc)-1, "ok-fee", 1); c1 != nil {
+					if c2 := sc.mutate(host, c1, len(c1)-1, pick(r, []string{"no-reward", "bad-ts", "two-rewards"}), 0); c2 != nil {
+						nb = append(nb, trace.Serving("late-reject", "late-reject", c2, S.BlocksLimit))
+					}
+				}
+			}
+			r.Shuffle(len(nb), func(i, j int) { nb[i], nb[j] = nb[j], nb[i] })
+			if v, _ := w.Sync(host, sc.clock, nb); v != nil {
+				if m := v.Info["sync"]; m == "tipswap" || m == "extension" {
+					sc.mark("adopted")
+				}
+			}
+		}
+		// converge on one chain before the next round of competing tips
+		for _, f := range []*node.Node{b, c} {
+			if !sameChain(f, a) {
+				sc.catchUp(f, a, sc.clock, 3)
+			}
+		}
+		if !sameChain(b, a) || !sameChain(c, a) {
+			return
+		}
+	}
+}
+
 // profile "faults" (C13): many consecutive rounds with faulty neighbours only.
 func (sc *scenario) runFaults(maxOps int) {
 	r := sc.rng
@@ -1469,9 +1585,12 @@ func main() {
 				sc.run(ops)
 			}
 		case "fork":
-			if rng.Intn(2) == 0 {
+			switch rng.Intn(4) {
+			case 0:
+				sc.runTips()
+			case 1, 2:
 				sc.runFork(ops)
-			} else {
+			default:
 				sc.run(ops)
 			}
 		default:
